@@ -13,7 +13,12 @@ func init() {
 		fs := newFlags("schema")
 		in := fs.String("in", "-", "case file (TLC output lines)")
 		roundTrip := fs.Bool("roundtrip", false, "also encode/decode/re-encode accepted values (C08)")
+		dsl := fs.Bool("dsl", false, "build the type system from rendered IPLD Schema DSL text (schema/dsl, schema/dmt, Compile) instead of schema.Spawn*")
 		fs.Parse(args)
+		eng := replay.BindnodeEngine
+		if *dsl {
+			eng = replay.BindnodeDSLEngine
+		}
 		col := run.NewCollector("schema")
 		r := run.Input(*in)
 		defer r.Close()
@@ -23,7 +28,7 @@ func init() {
 				col.Add(run.Finding{Case: idx, Step: -1, Target: "harness", Rule: "decode-case", Class: "error", Detail: err.Error()})
 				return
 			}
-			fs, n := replay.ReplaySchemaCase(&cs, replay.BindnodeEngine, *roundTrip)
+			fs, n := replay.ReplaySchemaCase(&cs, eng, *roundTrip)
 			for _, f := range fs {
 				f.Case = idx
 				f.Input = &cs
